@@ -14,7 +14,7 @@ is reported, not resolved).
 namespace TsVerif.C03
 
 /-- one action of a cell applied to a configuration (`none` = this version dies) -/
-def stepAct (tbl : Table) (c : Conf) (eoe : Bool) : Action → Option (Conf ⊕ PTree)
+def stepAct (acc : Stack → Option PTree) (tbl : Table) (c : Conf) (eoe : Bool) : Action → Option (Conf ⊕ PTree)
   | .shift s' extra _ =>
     match c.toks with
     | [] => none
@@ -27,7 +27,7 @@ def stepAct (tbl : Table) (c : Conf) (eoe : Bool) : Action → Option (Conf ⊕ 
     | .error _ => none
   | .accept =>
     match c.toks with
-    | [] => (acceptTree c.stack).map .inr
+    | [] => (acc c.stack).map .inr
     | _ :: _ => none
   | .recover => none
 
@@ -36,14 +36,25 @@ def cellActions (tbl : Table) (c : Conf) : List Action :=
              else tbl.actions (topState c.stack) (c.toks.headD 0))
 
 /-- the trees of all accepting runs, in action order -/
-def runAll (tbl : Table) : Nat → Conf → List PTree
+def runAll (acc : Stack → Option PTree) (tbl : Table) : Nat → Conf → List PTree
   | 0, _ => []
   | f + 1, c =>
     (cellActions tbl c).flatMap fun a =>
-      match stepAct tbl c (tbl.lexEnd (topState c.stack)) a with
-      | some (.inl c') => runAll tbl f c'
+      match stepAct acc tbl c (tbl.lexEnd (topState c.stack)) a with
+      | some (.inl c') => runAll acc tbl f c'
       | some (.inr t) => [t]
       | none => []
+
+/-- `ts_parser__accept` as proposed in fixes/C03-start-rule-dynamic-precedence.diff: the value the
+root's own reduce action contributed is carried over to the rebuilt root -/
+def acceptTreeCarry (st : Stack) : Option PTree :=
+  let r := PTree.leaf 0 true :: st.map (·.2)
+  let after := (r.takeWhile PTree.isExtra).reverse
+  match r.dropWhile PTree.isExtra with
+  | PTree.node sym pid dp _ kids :: beforeRev =>
+    let all := beforeRev.reverse ++ kids ++ after
+    some (PTree.node sym pid (sumDyn all + (dp - sumDyn kids)) false all)
+  | _ => none
 
 /-- keep `best` unless the candidate has the greater dynamic precedence (error-free trees) -/
 def selectBest : List PTree → Option PTree
@@ -54,12 +65,17 @@ def selectBest : List PTree → Option PTree
     | some b => if b.dynPrec > t.dynPrec then some b else some t
 
 def parseAll (tbl : Table) (toks : List Nat) : List PTree :=
-  runAll tbl (fuelFor toks) { stack := [], toks := toks }
+  runAll acceptTree tbl (fuelFor toks) { stack := [], toks := toks }
+
+/-- the same with the root carrying its own production's value (used only as the alternative the
+correspondence accepts; the judge decides which behaviour the property asks for) -/
+def parseAllCarry (tbl : Table) (toks : List Nat) : List PTree :=
+  runAll acceptTreeCarry tbl (fuelFor toks) { stack := [], toks := toks }
 
 /-! ## yield of every accepting run -/
 
-theorem stepAct_inl (tbl : Table) (c c' : Conf) (eoe : Bool) (a : Action)
-    (h : stepAct tbl c eoe a = some (.inl c')) :
+theorem stepAct_inl (acc : Stack → Option PTree) (tbl : Table) (c c' : Conf) (eoe : Bool) (a : Action)
+    (h : stepAct acc tbl c eoe a = some (.inl c')) :
     stackLeaves c'.stack ++ c'.toks = stackLeaves c.stack ++ c.toks := by
   cases a with
   | shift s' extra rep =>
@@ -87,12 +103,13 @@ theorem stepAct_inl (tbl : Table) (c c' : Conf) (eoe : Bool) (a : Action)
   | accept =>
     simp only [stepAct] at h
     split at h
-    · cases hacc : acceptTree c.stack <;> simp [hacc] at h
+    · cases hacc : acc c.stack <;> simp [hacc] at h
     · cases h
   | recover => simp [stepAct] at h
 
-theorem stepAct_inr (tbl : Table) (c : Conf) (eoe : Bool) (a : Action) (t : PTree)
-    (h : stepAct tbl c eoe a = some (.inr t)) : t.leaves = stackLeaves c.stack ++ c.toks ++ [0] := by
+theorem stepAct_inr (acc : Stack → Option PTree) (hacc' : ∀ st t, acc st = some t → t.leaves = stackLeaves st ++ [0])
+    (tbl : Table) (c : Conf) (eoe : Bool) (a : Action) (t : PTree)
+    (h : stepAct acc tbl c eoe a = some (.inr t)) : t.leaves = stackLeaves c.stack ++ c.toks ++ [0] := by
   cases a with
   | shift s' extra rep =>
     simp only [stepAct] at h
@@ -108,18 +125,19 @@ theorem stepAct_inr (tbl : Table) (c : Conf) (eoe : Bool) (a : Action) (t : PTre
     simp only [stepAct] at h
     split at h
     · next htoks =>
-      cases hacc : acceptTree c.stack with
+      cases hacc : acc c.stack with
       | none => simp [hacc] at h
       | some t' =>
         simp [hacc] at h
         subst h
         rw [htoks, List.append_nil]
-        exact acceptTree_leaves _ _ hacc
+        exact hacc' _ _ hacc
     · cases h
   | recover => simp [stepAct] at h
 
-theorem runAll_yield (tbl : Table) : ∀ (f : Nat) (c : Conf) (t : PTree),
-    t ∈ runAll tbl f c → t.leaves = stackLeaves c.stack ++ c.toks ++ [0] := by
+theorem runAll_yield (acc : Stack → Option PTree) (hacc' : ∀ st t, acc st = some t → t.leaves = stackLeaves st ++ [0])
+    (tbl : Table) : ∀ (f : Nat) (c : Conf) (t : PTree),
+    t ∈ runAll acc tbl f c → t.leaves = stackLeaves c.stack ++ c.toks ++ [0] := by
   intro f
   induction f with
   | zero => intro c t h; simp [runAll] at h
@@ -129,11 +147,11 @@ theorem runAll_yield (tbl : Table) : ∀ (f : Nat) (c : Conf) (t : PTree),
     obtain ⟨a, _, ht⟩ := h
     split at ht
     · next c' hs =>
-      rw [ih c' t ht, stepAct_inl tbl c c' _ a hs]
+      rw [ih c' t ht, stepAct_inl acc tbl c c' _ a hs]
     · next t' hs =>
       simp only [List.mem_singleton] at ht
       subst ht
-      exact stepAct_inr tbl c _ a t hs
+      exact stepAct_inr acc hacc' tbl c _ a t hs
     · simp at ht
 
 theorem selectBest_mem : ∀ (ts : List PTree) (t : PTree), selectBest ts = some t → t ∈ ts := by
